@@ -1,5 +1,5 @@
 """C01 - encode then decode returns the original message."""
-from .. import core, coder
+from .. import core, coder, oracle as O
 
 PID = 'C01'
 
@@ -7,6 +7,9 @@ PID = 'C01'
 def check_case(r, kind, case):
     if kind in ('rt', 'vt'):
         coder.replay_rt(r, 'C01', case)
+    elif kind == 'tabmod':
+        G = case['G']
+        coder.explore_class(r, 'C01', case['k'], G, case['start'], O.reach(G, case['start']), [([case['table']], case['Lmax'], True)])
     elif kind == 'diff':
         coder.diff_case(r, 'C01', case['k'], case['G'], case['G2'], case['start'], [int(c) for c in case['bits']])
 
